@@ -1,0 +1,30 @@
+//go:build verif
+
+// Contracts for govc (see /verif/DESIGN.md). Comment-only: no executable code with or without the tag.
+
+package transports
+
+//@ func (o XORObfuscator) TryReveal(cipherText []byte, privateKey [32]byte) ([]byte, error)
+//@   ensures @C15: result1 == nil ==> len(cipherText) % 2 == 0 && 2 * len(result0) == len(cipherText)
+//@   ensures @C15: result1 == nil ==> forall k int :: 0 <= k && k < len(result0) ==> result0[k] == xor8(cipherText[k], cipherText[len(result0) + k])
+//@   ensures @C15: len(cipherText) % 2 == 0 ==> result1 == nil
+//@   assigns nothing
+//@ loop 1:
+//@   invariant 0 <= iter && iter <= n && len(out) == n && 2 * n == len(cipherText) && fresh(out)
+//@   invariant forall k int :: 0 <= k && k < iter ==> out[k] == xor8(cipherText[k], cipherText[n + k])
+//@   modifies elems(out)
+
+//@ func (o XORObfuscator) Obfuscate(plainText []byte, stationPubkey []byte) ([]byte, error)
+//@   ensures @C15: result1 == nil ==> len(result0) == 2 * len(plainText)
+//@   ensures @C15: result1 == nil ==> forall k int :: 0 <= k && k < len(plainText) ==> result0[len(plainText) + k] == xor8(result0[k], plainText[k])
+//@   assigns nothing
+//@ loop 1:
+//@   invariant 0 <= iter && iter <= lp && len(out) == 2 * lp && lp == len(plainText) && len(randByte) == lp && fresh(out) && fresh(randByte) && !sameobj(out, randByte)
+//@   invariant forall k int :: 0 <= k && k < iter ==> out[lp + k] == xor8(out[k], plainText[k])
+//@   modifies elems(out)
+
+//@ lemma C15_xor_roundtrip(o XORObfuscator, p []byte, pub []byte, priv [32]byte)
+//@   calls c, e1 := (XORObfuscator).Obfuscate(o, p, pub)
+//@   calls d, e2 := (XORObfuscator).TryReveal(o, c, priv)
+//@   ensures @C15: e1 == nil ==> e2 == nil && len(d) == len(p)
+//@   ensures @C15: e1 == nil ==> forall k int :: 0 <= k && k < len(p) ==> d[k] == p[k]
